@@ -455,8 +455,8 @@ func c28Scenarios(thorough bool) []c28Scenario {
 	add := func(ti, i, target int) {
 		t := c28Topos[ti]
 		for _, ttl := range []int32{1, 2, 3, 10} {
-			if !thorough && t.name == "complete4" && (ttl == 1 || ttl == 10) {
-				continue // quick tier: the by far largest topology only with MaxTTL 2 and 3
+			if !thorough && t.name == "complete4" && (ttl == 1 || ttl == 10 || (ttl == 3 && target == 4)) {
+				continue // quick tier: the by far largest topology only with MaxTTL 2 (and 3 for a reachable target)
 			}
 			// alpha >= max degree: getNeighbor never has to pick a random subset
 			out = append(out, c28Scenario{ti, 3, i, target, ttl})
